@@ -146,7 +146,8 @@ def normalise(texts, names, masks):
 
 def import_time_names():
     import func_adl_xAOD.cms.miniaod.event_collections as mec
-    return [mec.cms_event_collection_coder.t_name]
+    t = getattr(mec.cms_event_collection_coder, "t_name", None)  # existed before the miniAOD token fix
+    return [t] if t else []
 
 
 # ---------------------------------------------------------------- fault seams
